@@ -458,6 +458,11 @@ impl<L: Language, N: Analysis<L>> EGraph<L, N> {
     /// Returns the canonical e-node corresponding to `i`.
     pub fn get_syn_node(&self, i: &AppliedId) -> L {
         let syn = &self.classes[&i.id].syn_enode;
+        // the bound slots of the stored syntactic node keep their own names: rename them if an argument would be captured.
+        let args = i.m.values();
+        if syn.private_slot_occurrences().iter().any(|s| args.contains(s)) {
+            return syn.refresh_private().apply_slotmap(&i.m);
+        }
         syn.apply_slotmap(&i.m)
     }
 }
